@@ -73,8 +73,10 @@ Suggest(w, n) ==
 
 En(a) == a \in Acts /\ Len(hist) < MaxDepth
 ASuggest == En("suggest") /\ \E w \in Clients, n \in 1..MaxCount : Suggest(w, n)
-AComplete == En("complete") /\ \E t \in Ids, inf \in BOOLEAN :
-               Plain([rpc |-> "CompleteTrial", s |-> S, t |-> t, f |-> "m1", inf |-> inf, reason |-> ""])
+\* an infeasible trial may be completed without any measurement and without a reason: it is completed all the same
+AComplete == En("complete") /\ \E t \in Ids, inf \in BOOLEAN, f \in {"m1", None} :
+               /\ (f = None => inf)
+               /\ Plain([rpc |-> "CompleteTrial", s |-> S, t |-> t, f |-> f, inf |-> inf, reason |-> ""])
 AAdd == En("add") /\ MaxTrialId(st, S) < MaxId /\ Plain([rpc |-> "CreateTrial", s |-> S, p |-> "p1", c |-> "m1"])
 ARequest == En("request") /\ MaxTrialId(st, S) < MaxId /\ Plain([rpc |-> "CreateTrial", s |-> S, p |-> "p1", c |-> None])
 ADelete == En("delete") /\ \E t \in Ids : Plain([rpc |-> "DeleteTrial", s |-> S, t |-> t])
